@@ -5,7 +5,7 @@
    from ansi/parser.go on every run (gen/GenParser.v).  Reference: model/Vt500Spec.v, a
    hand transcription of the Williams diagram with the extensions as explicit deltas. *)
 From Vx Require Import base.Prelude model.ParserTypes gen.GenParser model.Parser model.Vt500Spec
-  model.ParserCheck proofs.ParserTable proofs.ParserConform.
+  model.ParserCheck proofs.ParserTable proofs.ParserConform proofs.ParserSem.
 
 (* Every state function of parser.go, for EVERY rune (unbounded), performs the actions and
    reaches the state the reference machine prescribes; `anywhere` likewise. *)
@@ -39,6 +39,45 @@ Print Assumptions C02_strict_except_empty_string.
 Theorem C02_strict_refuted : exists segs, parse_segments segs <> spec_parse_segments true segs.
 Proof. exists [[27; 93; 27; 92]]. vm_compute. discriminate. Qed.
 Print Assumptions C02_strict_refuted.
+
+(* Sequence level, from ANY parser state p (mid-sequence, inside a string, ...), i.e. no state
+   leaks into what follows: a complete control sequence ESC [ <private> <parameter bytes>
+   <intermediates> <final> is delivered exactly once with exactly its marker, intermediates,
+   parameters (decoded by csi_decode: ';' separates parameters, ':' sub-parameters, 64-bit
+   accumulation) and final, preceded only by the delivery of a string it interrupted
+   (esc_post), and the parser is back in ground. *)
+Theorem C02_csi_delivered_exactly_once : forall p priv ps is f,
+  (priv = [] \/ exists m, priv = [m] /\ 60 <= m <= 63) ->
+  Forall (fun r => 48 <= r <= 59) ps -> Forall (fun r => 32 <= r <= 47) is -> 64 <= f <= 126 ->
+  exists p', feed p ([27; 91] ++ priv ++ ps ++ is ++ [f]) =
+               (p', snd (esc_post p) ++ [ICsi (priv ++ is) (csi_decode ps) f], true) /\ st p' = Ground.
+Proof. exact csi_exact. Qed.
+Print Assumptions C02_csi_delivered_exactly_once.
+
+(* An OSC string with any payload of runes >= 0x20 (UTF-8 text included), BEL-terminated or
+   ST-terminated (non-empty payload): exactly one OSC with exactly the payload, no ESC \ item,
+   ground afterwards with ST suppression off. *)
+Theorem C02_osc_bel_delivered_exactly_once : forall p pl,
+  fresh_osc p -> Forall (fun r => 32 <= r) pl ->
+  exists p', feed p ([27; 93] ++ pl ++ [7]) = (p', snd (esc_post p) ++ [IOsc pl], true) /\
+             st p' = Ground /\ ignoreST p' = false.
+Proof. exact osc_bel_exact. Qed.
+Print Assumptions C02_osc_bel_delivered_exactly_once.
+
+Theorem C02_osc_st_delivered_exactly_once : forall p pl,
+  fresh_osc p -> Forall (fun r => 32 <= r) pl -> pl <> [] ->
+  exists p', feed p ([27; 93] ++ pl ++ [27; 92]) = (p', snd (esc_post p) ++ [IOsc pl], true) /\
+             st p' = Ground /\ ignoreST p' = false.
+Proof. exact osc_st_exact. Qed.
+Print Assumptions C02_osc_st_delivered_exactly_once.
+
+(* Printable text in ground is delivered rune for rune: nothing lost, duplicated, reordered
+   or altered (valid scalars and raw bytes alike: see decode1 for the byte level). *)
+Theorem C02_text_conserved : forall rs p,
+  st p = Ground -> Forall (fun r => 32 <= r) rs ->
+  exists p', feed p rs = (p', map (fun r => IPrint [r]) rs, true) /\ (rs = [] \/ st p' = Ground).
+Proof. exact text_conserved. Qed.
+Print Assumptions C02_text_conserved.
 
 (* non-vacuity: a stream exercising CSI with sub-parameters, OSC, DCS, UTF-8 and a raw byte,
    on which strict and lenient agree and the guard of the finding is false *)
